@@ -30,6 +30,7 @@ type Op struct {
 	W    segu.Write `json:"w,omitempty"`
 	Q    segu.Query `json:"q,omitempty"`
 	Thr  int64      `json:"thr,omitempty"`
+	Z    int        `json:"z,omitempty"` // location of the threshold time value (see segu.T)
 	M    *Meta      `json:"m,omitempty"` // setmeta
 }
 
@@ -105,7 +106,12 @@ func randQuery(r *rand.Rand, w segu.Window) segu.Query {
 		a -= ((a % 10) + 10) % 10
 		b += 10 - ((b%10)+10)%10
 	}
-	return segu.Query{St: segu.SlotUnix(a), Et: segu.SlotUnix(b)}
+	if lib.Chance(r, 0.25) { // exactly one bucket wide, on the grid
+		g := segu.Pow10(r.Intn(3))
+		a -= ((a % g) + g) % g
+		b = a + g
+	}
+	return segu.Query{St: segu.SlotUnix(a), Et: segu.SlotUnix(b), Zs: segu.RandZone(r), Ze: segu.RandZone(r)}
 }
 
 func gen(r *rand.Rand, idx int, tier string) Input {
@@ -129,7 +135,7 @@ func gen(r *rand.Rand, idx int, tier string) Input {
 	for i := 0; i < nb; i++ {
 		in.Build = append(in.Build, Op{Kind: "put", W: segu.RandWrite(r, w, size)})
 		if cuts > 0 && i >= 1 && lib.Chance(r, 0.5) {
-			in.Build = append(in.Build, Op{Kind: "del", Thr: randThr(r, w)})
+			in.Build = append(in.Build, Op{Kind: "del", Thr: randThr(r, w), Z: segu.RandZone(r)})
 			cuts--
 		}
 	}
@@ -201,7 +207,7 @@ func gen(r *rand.Rand, idx int, tier string) Input {
 		case 3, 4:
 			in.Ops = append(in.Ops, Op{Kind: "get", Q: randQuery(r, w)})
 		case 5:
-			in.Ops = append(in.Ops, Op{Kind: "del", Thr: randThr(r, w)})
+			in.Ops = append(in.Ops, Op{Kind: "del", Thr: randThr(r, w), Z: segu.RandZone(r)})
 		case 6:
 			q := randQuery(r, w)
 			if lib.Chance(r, 0.4) { // long ranges: coarser timeline buckets
@@ -220,7 +226,7 @@ func gen(r *rand.Rand, idx int, tier string) Input {
 }
 
 func coqW(w segu.Write, cbs []segu.PutCB) string {
-	nst, net := segment.VerifNormalize(time.Unix(w.St, 0), time.Unix(w.Et, 0))
+	nst, net := segment.VerifNormalize(segu.T(w.St, w.Zs), segu.T(w.Et, w.Ze))
 	return "(OW " + lib.Z(w.St) + " " + lib.Z(w.Et) + " " + lib.N(w.Samples) + " " + lib.Z(nst.Unix()) + " " + lib.Z(net.Unix()) + " " + segu.CoqPutCBs(cbs) + ")"
 }
 
@@ -228,9 +234,9 @@ func coqQ(q segu.Query, g []segu.GetCB) string {
 	return "(OQ " + lib.Z(q.St) + " " + lib.Z(q.Et) + " " + segu.CoqGetCBs(g) + ")"
 }
 
-func del(s *segment.Segment, thr int64) (string, bool) {
+func del(s *segment.Segment, thr int64, z int) (string, bool) {
 	var items []string
-	gone := s.DeleteDataBefore(time.Unix(thr, 0), func(depth int, t time.Time) {
+	gone := s.DeleteDataBefore(segu.T(thr, z), func(depth int, t time.Time) {
 		items = append(items, lib.Pair(lib.Nat(depth), lib.Z(t.Unix())))
 	})
 	return lib.List(items), gone
@@ -245,7 +251,7 @@ func coqMeta(s *segment.Segment) string {
 }
 
 func coqTL(s *segment.Segment, q segu.Query) string {
-	tl := segment.GenerateTimeline(time.Unix(q.St, 0), time.Unix(q.Et, 0))
+	tl := segment.GenerateTimeline(segu.T(q.St, q.Zs), segu.T(q.Et, q.Ze))
 	tl.PopulateTimeline(s)
 	items := make([]string, len(tl.Samples))
 	for i, v := range tl.Samples {
@@ -268,7 +274,7 @@ func run(in Input) (res lib.Result) {
 		case "put":
 			build = append(build, "BPut "+coqW(op.W, segu.Put(s0, op.W)))
 		case "del":
-			cbs, gone := del(s0, op.Thr)
+			cbs, gone := del(s0, op.Thr, op.Z)
 			build = append(build, "BDel "+lib.Z(op.Thr)+" "+cbs+" "+lib.Bool(gone))
 			ncuts++
 		case "setmeta":
@@ -302,8 +308,8 @@ func run(in Input) (res lib.Result) {
 		case "get":
 			ops = append(ops, "DGet "+coqQ(op.Q, segu.Get(s0, op.Q))+" "+coqQ(op.Q, segu.Get(s1, op.Q)))
 		case "del":
-			c0, g0 := del(s0, op.Thr)
-			c1, g1 := del(s1, op.Thr)
+			c0, g0 := del(s0, op.Thr, op.Z)
+			c1, g1 := del(s1, op.Thr, op.Z)
 			ops = append(ops, "DDel "+lib.Z(op.Thr)+" "+c0+" "+c1+" "+lib.Bool(g0)+" "+lib.Bool(g1))
 		case "tl":
 			ops = append(ops, "DTimeline "+lib.Z(op.Q.St)+" "+lib.Z(op.Q.Et)+" "+coqTL(s0, op.Q)+" "+coqTL(s1, op.Q))
